@@ -1,20 +1,22 @@
 use ivp::prelude::*;
+use ivp::methods::RK4;
+use ivp::solout::SolOut;
 struct P;
 impl IVP for P {
     fn ode(&self, x: f64, y: &[f64], dy: &mut [f64]) {
-        let (a,c)=(1.5675428,0.4471676616735688);
-        let span=41.8342-37.115330400000005; let x0=-41.8342;
-        let th=5.565533; let aa=th/span; let w=2.0*std::f64::consts::PI*2.0/span; let b=-0.4084395*aa/w;
-        let d=x-x0; let dt=aa+b*w*(w*d).cos();
-        let u=y[0]/0.778106;
-        dy[0]=0.778106*(a*u-c*u*u*u)*dt;
+        dy[0] = -y[0] + x.sin(); dy[1] = y[0]-0.5*y[1];
+    }
+}
+struct S;
+impl SolOut for S {
+    fn solout(&mut self, xold: f64, x: &mut f64, y: &mut [f64], ip: Option<&StepInterpolant<'_>>) -> ControlFlag {
+        if let Some(ip)=ip { let mut a=vec![0.0;2]; ip.interpolate(*x,&mut a); let mut b=vec![0.0;2]; ip.interpolate(xold,&mut b);
+          println!("xold={} x={} y={:?} I(x)={:?} I(xold)={:?} params={:?}",xold,x,y,a,b,ip.step_params()); }
+        ControlFlag::Continue
     }
 }
 fn main(){
-    for dense in [false,true] {
-    let o=Options::builder().method(Method::RADAU).rtol(4.261985815634729e-08).atol(4.054385126516516e-08).dense_output(dense).build();
-    let s=solve_ivp(&P,-41.8342,-37.115330400000005,&[2.2914841642104*0.778106],o).unwrap();
-    println!("dense={} status={:?} n={} last t={:?} span={:?} nacc={} nrej={}",dense,s.status,s.t.len(),s.t.last(),s.sol_span(),s.naccpt,s.nrejct);
-    let k=s.t.len(); println!("{:?}", &s.t[k-4..]);
-    }
+    let mut s=S;
+    let r=RK4::builder().build().solve(&P,0.0,&[1.0,0.5],16.7237635,4.485,Some(&mut s)).unwrap();
+    println!("{:?}",r.status);
 }
